@@ -30,7 +30,7 @@ func (c *nxCluster) persistedEntry(h *nxHost, idx uint64) (pb.Entry, bool) {
 func (c *nxCluster) checkSend(h *nxHost, m pb.Message) {
 	st := h.db.State(nxShard, h.id)
 	ss, _ := h.db.GetSnapshot(nxShard, h.id)
-	if m.Term > h.maxTermSent {
+	if m.Term > h.maxTermSent && m.Type != pb.RequestPreVote && m.Type != pb.RequestPreVoteResp {
 		h.maxTermSent = m.Term
 	}
 	switch m.Type {
@@ -250,7 +250,7 @@ func (c *nxCluster) check() string {
 				n++
 				continue
 			}
-			if e, ok := c.persistedEntry(h, op.index); ok && string(e.Cmd) == string(cmd) {
+			if e, ok := c.persistedEntry(h, op.index); ok && e.Key == op.key {
 				n++
 			}
 		}
